@@ -254,6 +254,13 @@ def setup():
 
 
 def main(argv):
+    try:
+        # a generated case that asks for an absurd number of samples must end as a MemoryError in that one case, not as an
+        # out-of-memory kill of the check (or of the machine)
+        import resource
+        resource.setrlimit(resource.RLIMIT_AS, (48 << 30, 48 << 30))
+    except Exception:  # noqa: BLE001
+        pass
     if argv and argv[0] == "--rebaseline":
         # after a deliberate change of /repo (a fix: commit): the snapshot the reach obligation compares against
         from . import cover
@@ -381,7 +388,7 @@ def main(argv):
             # cross-check sample and the per-property counts are those of the property's own programs.
             from . import followup
             cases += followup.make(random.Random(seed * 7919 + 13), [c for c in cases if "prog" in c],
-                                   {"quick": 40}.get(a.tier, 400))
+                                   {"quick": 56}.get(a.tier, 560))
 
     # ---- 3. extra per-property work (translator validation, numeric oracles, alias graph) ------
     extra = getattr(mod, "extra_checks", None)
